@@ -291,6 +291,84 @@ func ruleToken(c *Ctx) {
 				} else {
 					l.add("R-TOKEN", b.Name, key, b.posOf(call), Discharged, "strings.Split(<path parameter>, \"/\"); every slice of the result starts at 1", true)
 				}
+				// a non-empty pointer starts with "/": the resolver (the function that returns the
+				// container) refuses a pointer with text in front of its first separator
+				if b.Name == "v5" && fn.Signature.Results().Len() == 2 && isNamed(fn.Signature.Results().At(0).Type(), "container") {
+					key := fmt.Sprintf("%s: a pointer with text in front of its first \"/\" resolves to nothing", b.canonFname(fn))
+					pathP := call.Call.Args[0]
+					ok := false
+					for _, bb := range fn.Blocks {
+						iff, isIf := bb.Instrs[len(bb.Instrs)-1].(*ssa.If)
+						if !isIf {
+							continue
+						}
+						cv, neg := stripNot(iff.Cond)
+						failSucc := -1
+						switch x := cv.(type) {
+						case *ssa.BinOp:
+							if x.Op != token.EQL && x.Op != token.NEQ {
+								break
+							}
+							var other ssa.Value
+							var elem ssa.Value
+							if s0, isS := strConst(x.Y); isS && s0 == "" {
+								elem, other = x.X, x.Y
+							} else if k, isK := intConst(x.Y); isK && k == '/' {
+								elem, other = x.X, x.Y
+							}
+							_ = other
+							if elem == nil {
+								break
+							}
+							first := false
+							if u, isU := elem.(*ssa.UnOp); isU {
+								if ia, isIA := u.X.(*ssa.IndexAddr); isIA && ia.X == ssa.Value(call) {
+									if k, isK := intConst(ia.Index); isK && k == 0 {
+										first = true
+									}
+								}
+							}
+							if lk, isL := elem.(*ssa.Lookup); isL && lk.X == pathP {
+								if k, isK := intConst(lk.Index); isK && k == 0 {
+									first = true
+								}
+							}
+							if ix, isI := elem.(*ssa.Index); isI && ix.X == ssa.Value(call) {
+								if k, isK := intConst(ix.Index); isK && k == 0 {
+									first = true
+								}
+							}
+							if !first {
+								break
+							}
+							failSucc = 1 // == : false edge fails
+							if x.Op == token.NEQ {
+								failSucc = 0
+							}
+						case *ssa.Call:
+							if f := x.Call.StaticCallee(); f != nil && stdName(f) == "strings.HasPrefix" && x.Call.Args[0] == pathP {
+								if p, isS := strConst(x.Call.Args[1]); isS && p == "/" {
+									failSucc = 1
+								}
+							}
+						}
+						if failSucc < 0 {
+							continue
+						}
+						if neg {
+							failSucc = 1 - failSucc
+						}
+						fb := bb.Succs[failSucc]
+						if r, isRet := fb.Instrs[len(fb.Instrs)-1].(*ssa.Return); isRet && isNilConst(r.Results[0]) {
+							ok = true
+						}
+					}
+					if ok {
+						l.add("R-TOKEN", b.Name, key, b.posOf(call), Discharged, "the element in front of the first separator is tested for emptiness and the failing edge returns no container", true)
+					} else {
+						l.add("R-TOKEN", b.Name, key, b.posOf(call), Violated, "the element of the split in front of the first separator is dropped without being looked at: \"x/b\" is resolved like \"/b\", although RFC 6901 makes it an invalid pointer (an operation that must fail is applied)", true)
+					}
+				}
 			})
 		}
 		for _, fn := range b.srcFuncs(b.Lib) {
